@@ -385,8 +385,12 @@ spif_mbuff_dup(spif_mbuff_t self)
     ASSERT_RVAL(!SPIF_MBUFF_ISNULL(self), (spif_mbuff_t) NULL);
     tmp = SPIF_ALLOC(mbuff);
     memcpy(tmp, self, SPIF_SIZEOF_TYPE(mbuff));
-    tmp->buff = (spif_byteptr_t) MALLOC(self->size);
-    memcpy(tmp->buff, self->buff, self->size);
+    if (self->buff && self->size) {
+        tmp->buff = (spif_byteptr_t) MALLOC(self->size);
+        memcpy(tmp->buff, self->buff, self->size);
+    } else {
+        tmp->buff = (spif_byteptr_t) NULL;
+    }
     tmp->len = self->len;
     tmp->size = self->size;
     return tmp;
